@@ -4,7 +4,7 @@ Proof: coq/theories/C14 (rays from two points, all pairs, spherical-cap rays, ti
 counts, tilts, limits and draws U, V in [0, 1]).
 Tie to /repo, B1: the constructors and generators of both APIs are cut from the current sources, executed
 symbolically with symbolic random draws (tracer/recipes/c14.py) and proved equal to the model for all reals
-(coq/tie/C14_Tie{A,B,C}.v), where the property's clauses are restated on the traced definitions; the translator
+(coq/tie/C14_Tie{A,B1,B2,C1,C2}.v), where the property's clauses are restated on the traced definitions; the translator
 is validated numerically on every run.  B2: the index order of the lattices / all-pairs / light-to-ray
 assignment and the rational axis coordinates are evaluated inside Coq (vm_compute) and compared with the
 implementation's rows for many counts.  Direct oracles state every clause on the real implementation.
@@ -159,8 +159,14 @@ def oracle_grid_lum(inp):
         return out
     sc = scale_of(cen, inp['size'])
     lights = np.array([[x, y, 0.] for x in grid_axis(inp['size'][0], n0) for y in grid_axis(inp['size'][1], n1)]) @ rotm(tilt).T + cen
-    err = max(float(np.max(np.abs(ray[k, 0] - lights[k % S]))) for k in range(per * S))
-    out.append(('origins_are_the_lights', err <= 100 * TOL32 * sc, 'ray k starts at light k mod %d' % S, err))
+    # every ray starts at one of the lights, every light emits exactly `per` rays (which ray belongs to which light is not prescribed)
+    dmat = np.max(np.abs(ray[:, None, 0, :] - lights[None, :, :]), axis=2)
+    err = float(np.max(np.min(dmat, axis=1)))
+    out.append(('origins_are_the_lights', err <= 100 * TOL32 * sc, 'every origin is a grid light', err))
+    sep = min([float(np.max(np.abs(lights[a] - lights[b]))) for a in range(S) for b in range(a)] + [float('inf')])
+    if err <= 100 * TOL32 * sc and sep > 1000 * TOL32 * sc:
+        counts = np.bincount(np.argmin(dmat, axis=1), minlength=S).tolist()
+        out.append(('rays_per_light', counts == [per] * S, [per] * S, counts))
     q = rel(ray[:, 0], cen, tilt)
     inside = float(np.max(np.abs(q[:, 0]))) <= inp['size'][0] / 2 + 100 * TOL32 * sc and float(np.max(np.abs(q[:, 1]))) <= inp['size'][1] / 2 + 100 * TOL32 * sc \
         and float(np.max(np.abs(q[:, 2]))) <= 100 * TOL32 * sc
@@ -349,27 +355,27 @@ def gen_inputs(ctx, n):
         out.append(('point_lum', {'origin': gen_centre(rng, k), 'num': rng.choice([1, 7, 200, 2000]), 'tilt': gen_tilt(rng, k), 'limit': lim,
                                   'seed': rng.randrange(2 ** 31)}, 'point_lum/limit%s' % ('0' if lim == 0 else '90' if lim == 90 else 'mid')))
         no = [rng.randint(1, 5), rng.randint(1, 5)]
-        out.append(('grid_lum', {'centre': gen_centre(rng, k + 1), 'size': [gen_size(rng), gen_size(rng)], 'no': no, 'tilt': gen_tilt(rng, k + 1),
-                                 'per': rng.choice([1, 3, 50]), 'limit': gen_limit(rng, k + 1), 'seed': rng.randrange(2 ** 31)},
+        out.append(('grid_lum', {'centre': gen_centre(rng, k), 'size': [gen_size(rng), gen_size(rng)], 'no': no, 'tilt': gen_tilt(rng, k),
+                                 'per': rng.choice([1, 3, 50]), 'limit': gen_limit(rng, k), 'seed': rng.randrange(2 ** 31)},
                     'grid_lum/%s' % ('single' if min(no) == 1 else 'lattice')))
         no = [rng.randint(2, 8), rng.randint(2, 8)]
-        if k % 6 == 0: no[rng.randrange(2)] = 1                # boundary: a single row / column
-        g = {'no': no, 'size': [gen_size(rng), gen_size(rng)], 'centre': gen_centre(rng, k + 2), 'angles': gen_tilt(rng, k + 2)}
+        if k % 6 == 3: no[rng.randrange(2)] = 1                # boundary: a single row / column
+        g = {'no': no, 'size': [gen_size(rng), gen_size(rng)], 'centre': gen_centre(rng, k), 'angles': gen_tilt(rng, k)}
         for which in ('numpy', 'torch'):
             out.append(('grid', dict(g, api=which), 'grid/%s/%s' % (which, 'single' if min(no) == 1 else 'untilted' if not any(g['angles']) else 'tilted')))
         out.append(('box', {'no': [rng.randint(1, 5), rng.randint(1, 5), rng.randint(1, 4)], 'size': [gen_size(rng) for _ in range(3)],
-                            'centre': gen_centre(rng, k + 3), 'angles': gen_tilt(rng, k)}, 'box'))
+                            'centre': gen_centre(rng, k), 'angles': gen_tilt(rng, k)}, 'box/%s' % ('untilted' if k % 30 == 0 else 'tilted')))
         cn = [rng.randint(1, 7), rng.randint(1, 7)]
         for fn in ('circular_sample', 'circular_uniform_sample', 'circular_uniform_random_sample'):
             c = {'fn': fn, 'no': cn if fn != 'circular_uniform_sample' else [rng.randint(2, 6), rng.randint(4, 12)], 'radius': gen_size(rng),
-                 'centre': gen_centre(rng, k + 1), 'angles': gen_tilt(rng, k + 1)}
+                 'centre': gen_centre(rng, k), 'angles': gen_tilt(rng, k)}
             if fn == 'circular_uniform_random_sample': c['seed'] = rng.randrange(2 ** 31)
             out.append(('circle', c, 'circle/' + fn))
         sn = [rng.randint(1, 7), rng.randint(1, 7)]
         out.append(('sphere', {'fn': 'sphere_sample', 'no': sn, 'radius': gen_size(rng), 'centre': gen_centre(rng, k)}, 'sphere/sphere_sample'))
         sq = rng.randint(1, 7)
         un = [sq, sq] if k % 7 else [sq, sq + 1]              # boundary: non-square request
-        out.append(('sphere', {'fn': 'sphere_sample_uniform', 'no': un, 'radius': gen_size(rng), 'centre': gen_centre(rng, k + 2)},
+        out.append(('sphere', {'fn': 'sphere_sample_uniform', 'no': un, 'radius': gen_size(rng), 'centre': gen_centre(rng, k)},
                     'sphere/uniform/%s' % ('square' if un[0] == un[1] else 'non-square')))
     return out
 
@@ -590,6 +596,7 @@ def run(ctx):
     ctx.gate()
     ctx.ensure_theories(['theories/C14/Props.vo'])
     ctx.theorems('OdakV.C14.Props', PROPS)
+    ctx.log('theorems checked')
     # B1
     try:
         g = recipe.trace()
@@ -599,7 +606,9 @@ def run(ctx):
         g = None
         ctx.obligation('translator:trace', False, repr(e))
     if g is not None:
-        ctx.compile_tie('GenC14', g.text(), [['C14_TieA', 'C14_TieB', 'C14_TieC']], timeout=900)
+        ctx.log('traced %d definitions' % len(g.defs))
+        ctx.compile_tie('GenC14', g.text(), [['C14_TieA', 'C14_TieB1', 'C14_TieB2', 'C14_TieC1', 'C14_TieC2']], timeout=900)
+        ctx.log('tie files compiled')
         try:
             self_check(ctx, g)
         except Exception as e:
@@ -607,7 +616,9 @@ def run(ctx):
         from tracer import shim
         ctx.sample({'traced_definition': 't_pl_d_0_2', 'coq': shim.coq(g.by_name['t_pl_d_0_2'][1])[:500]})
     # B2
+    ctx.log('self-check done')
     correspondence(ctx)
+    ctx.log('correspondence done')
     # direct oracles
     for name, inp, cat in gen_inputs(ctx, 160 if ctx.thorough else 24):
         bad, res = apply_oracle(ctx, name, inp)
